@@ -26,17 +26,17 @@ CHECKS = {
         'technique': 'deterministic simulation: seeded thread-schedule search (baton-passing real threads on sys.monitoring events) with isolated-twin oracle',
         'ref': 'DESIGN.md 3.3, 4 (C20)'},
     'C06': {
-        'text': 'the whole property runs on a simulated file system (in-memory tree, cwd, HOME behind the module-global open/os seams): seeded search over document sequences x delivery plans (separate file/text/stream sources, multi-document files, include lists, per-document includes, include chains 2-3 files deep, key: !include) x directory layouts (next to the including file, sub/parent directory, cwd only, both with a different decoy copy in the cwd, absolute, ~) x fault plans (every kind of file missing; EACCES/EISDIR/EIO/ENAMETOOLONG/EINVAL/EMFILE/undecodable bytes on the k-th open; content replaced between opens; a source failing in open/read followed by further use of the same builder). Oracles: every plan equals the separate-sources route; a lookup model (first existing of [directory of the including file, cwd]) is checked against the open log; a missing file must fail the build with an error naming it and no existing one; under an I/O fault the build fails or returns exactly the fault-free result; !path values equal the location computed from the file each node was physically written in. Sampling, not proof.',
+        'text': 'the whole property runs on a simulated file system (in-memory tree, cwd, HOME behind the module-global open/os seams): seeded search over document sequences x delivery plans (separate file/text/stream sources, multi-document files, include lists, per-document includes, include chains 2-3 files deep, key: !include in ten placements incl. tagged ancestors, lists and multi-document files, the same file named twice, include merged over earlier content; documents also use !append/!extend/!clear/!prev/!new/!notnew) x directory layouts (next to the including file, sub/parent directory, cwd only, both with a different decoy copy in the cwd, absolute, ~) x fault plans (every kind of file missing; EACCES/EISDIR/EIO/ENAMETOOLONG/EINVAL/EMFILE/undecodable bytes on the k-th open; content replaced between opens; a source failing in open/read/parse followed by further use of the same builder). Oracles: every plan equals the separate-sources route; a lookup model (first existing of [directory of the including file, cwd]) is checked against the open log; a missing file must fail the build with an error naming it and no existing one; under an I/O fault the build fails or returns exactly the fault-free result; !path values equal the location computed from the file each node was physically written in. Sampling, not proof.',
         'note': 'merge semantics are not re-implemented (routes are compared with each other); cwd/HOME are constant during a build; error classes are not compared across routes, only success/failure',
         'technique': 'deterministic simulation: simulated file system with seeded layout/fault plans, route-equivalence + lookup-model + fail-or-exact oracles',
         'ref': 'DESIGN.md 3.2, 4 (C06)'},
     'C07': {
-        'text': 'taint monitor over simulated runs: every scalar of a generated document is a unique token with a taint (S/U) known from where it is written (source safe flag, class default, !unsafe or safe metadata on/above the node, inclusion by unsafe content via !include / !rec on the simulated file system); 1-2 client threads build at the same time with different safe flags under seeded schedules, sources may fail inside the safe/unsafe window and the builder is used further; merge histories (argument / name / list / node overrides, placeholders, deletions, xref chains, eval code and f-strings reading config names, imports) are the workload. Invariant at every recorder event (call, name resolution, import, eval probe) and over everything executed code produced: no U token; an unsafe dynamic node nothing overwrites must make the build fail with UnsafeError. Sampling, not proof.',
+        'text': 'taint monitor over simulated runs: every scalar of a generated document is a unique token with a taint (S/U) known from where it is written (source safe flag, class default, !unsafe or safe metadata on/above the node, inclusion by unsafe content via !include / !rec on the simulated file system); 1-2 client threads build at the same time with different safe flags under seeded schedules, sources may fail inside the safe/unsafe window and the builder is used further; merge histories (argument / name / list / node overrides, placeholders, deletions, xref chains, eval code and f-strings reading config names, members of mappings and ayns.cfg, mixed-taint containers consumed whole, !rec / !include lists with per-name markers, a file included twice with different safety, imports) are the workload. Invariant at every recorder event (call, name resolution, import, eval probe) and over everything executed code produced: no U token; an unsafe dynamic node nothing overwrites must make the build fail with UnsafeError. Sampling, not proof.',
         'note': 'the monitor flags only what the statement forbids (the library may be more conservative); evaluated code is restricted to the probe rec(token, names...) and name reads; pre-emption points as in C20',
         'technique': 'deterministic simulation: seeded thread schedules + simulated include I/O + failing sources, taint-monitor invariant on every executed call/import/eval',
         'ref': 'DESIGN.md 4 (C07)'},
     'C12': {
-        'text': 'seeded search over process histories (1-4 builds per forked process reusing node paths and code text with different config values, symbols, evaluation contexts and file names or none; some builds fail inside user code), optionally two histories in two threads under the seeded scheduler (shared sys.modules), with programs from a seeded grammar (expressions, assignments, def/lambda/closures/global, comprehensions, if/for/while with break/continue, try/except/finally, with, imports, >256 names needing extended bytecode arguments, deliberate errors) and f-strings (explicit and implicit form). Oracle per build: the interpreter\'s own exec/eval of the same program in a plain dict namespace (config entries, then symbols; definitions shadow; builtins last) run in a sibling fork - equal value and type, EvalError carrying the original cause along __cause__, and the child process must not die (a death by signal is reported as eval.crash). Sampling, not proof.',
+        'text': 'seeded search over process histories (1-4 builds per forked process reusing node paths and code text with different config values, symbols, evaluation contexts and file names or none; some builds fail inside user code), optionally two histories in two threads under the seeded scheduler (shared sys.modules), with programs from a seeded grammar (expressions, assignments, def/lambda/closures/global, comprehensions, if/for/while with break/continue, try/except/finally, with, imports, annotations, >256 names needing extended bytecode arguments, functions returned and called after the build, deliberate errors) and f-strings (explicit, implicit and content-only form); config names and symbols vary between the builds of a history and one evaluation context may serve consecutive builds. Oracle per build: the interpreter\'s own exec/eval of the same program in a plain dict namespace (config entries, then symbols; definitions shadow; builtins last) run in a sibling fork - equal value and type, EvalError carrying the original cause along __cause__, and the child process must not die (a death by signal is reported as eval.crash). Sampling, not proof.',
         'note': 'CPython 3.12.1 only; programs contain no ";" and no class bodies reading config names; process-wide default eval symbols are treated as client configuration and reset by the client between builds',
         'technique': 'deterministic simulation: seeded build histories / thread schedules in forked processes (crash = child death), native exec/eval reference namespace per build',
         'ref': 'DESIGN.md 4 (C12)'},
@@ -46,7 +46,7 @@ CHECKS = {
         'technique': 'deterministic simulation: seeded process histories, thread placement, GC/allocation perturbation and PYTHONHASHSEED re-execution with equality-of-related-builds oracle',
         'ref': 'DESIGN.md 3.5, 4 (C15)'},
     'C17': {
-        'text': 'seeded search over operation-and-fault histories on a two-copy store (built-in dict/list storage vs child map): a Hypothesis stateful machine (one PRNG value per simulated run, database off) generates and shrinks sequences of all listed public mutators with in-range / out-of-range / negative / non-integer indices, missing and forbidden keys, unconvertible values, iterators that raise after k items and mappings whose items() raises; after every step a plain dict/list model and the cross-view invariants (same keys, same order, same objects, every entry a node, children 0..n-1, walk==lookup, path text round trip, evaluation == model) are checked; a failed operation must leave the pre-state or, for extend/update, a prefix. Sampling, not proof.',
+        'text': 'seeded search over operation-and-fault histories on a two-copy store (built-in dict/list storage vs child map): a Hypothesis stateful machine (one PRNG value per simulated run, database off) generates and shrinks sequences of all listed public mutators with in-range / out-of-range / negative / non-integer indices, missing and forbidden keys, unconvertible values, iterators that raise after k items and mappings whose items() raises; after every step a plain dict/list model and the cross-view invariants (same keys, same order, same objects, every entry a node, children 0..n-1, walk==lookup, path text round trip, evaluation == model) are checked; a failed operation must leave the pre-state or, for extend/update, a prefix; every operation runs under the simulator step clock (an operation that does not return within 60000 traced lines is a liveness violation); histories start from an empty mapping or from trees parsed from YAML (node keys, integer keys, merge flags) and use existing nodes, shallow copies and the containers themselves as arguments. Sampling, not proof.',
         'note': 'no asynchronous exceptions are injected; slices/sort/reverse/+=/popitem are outside the statement; operations without a Python-defined result (set_child beyond the end of a list, rename_child) are checked against the invariants only',
         'technique': 'deterministic simulation: seeded stateful operation/fault sequences (Hypothesis RuleBasedStateMachine) against a dict/list reference model, explicit replay files',
         'ref': 'DESIGN.md 2, 4 (C17)'},
